@@ -10,7 +10,8 @@ use crate::commands::{self, CommandArg};
 use crate::env::{EnvironmentLookup, EnvironmentScope, valid_variable_name};
 use crate::openfiles::{OpenFile, OpenFiles};
 use crate::results::{
-    ExecutionExitCode, ExecutionResult, ExecutionSpawnResult, ExecutionWaitResult,
+    ExecutionControlFlow, ExecutionExitCode, ExecutionResult, ExecutionSpawnResult,
+    ExecutionWaitResult,
 };
 use crate::shell::Shell;
 use crate::variables::{
@@ -479,10 +480,8 @@ async fn spawn_pipeline_processes(
         // Otherwise, we spawn a separate subshell for each command in the pipeline.
         //
 
-        let run_in_current_shell = pipeline_len == 1
-            || (current_pipeline_index == pipeline_len - 1
-                && shell.options().run_last_pipeline_cmd_in_current_shell
-                && !shell.options().enable_job_control);
+        let run_in_current_shell =
+            pipeline_stage_runs_in_current_shell(shell, pipeline_len, current_pipeline_index);
 
         // Set up parameters appropriate for this command.
         let mut cmd_params = params.clone();
@@ -532,6 +531,19 @@ async fn spawn_pipeline_processes(
     Ok(spawn_results)
 }
 
+/// Returns whether the command at the given index of a pipeline runs directly in the
+/// invoking shell (as opposed to its own subshell).
+fn pipeline_stage_runs_in_current_shell(
+    shell: &Shell<impl extensions::ShellExtensions>,
+    pipeline_len: usize,
+    index: usize,
+) -> bool {
+    pipeline_len == 1
+        || (index + 1 == pipeline_len
+            && shell.options().run_last_pipeline_cmd_in_current_shell
+            && !shell.options().enable_job_control)
+}
+
 async fn wait_for_pipeline_processes_and_update_status(
     pipeline: &ast::Pipeline,
     mut process_spawn_results: VecDeque<ExecutionSpawnResult>,
@@ -545,6 +557,9 @@ async fn wait_for_pipeline_processes_and_update_status(
     // Clear our the pipeline status so we can start filling it out.
     shell.last_pipeline_statuses_mut().clear();
 
+    let pipeline_len = process_spawn_results.len();
+    let mut current_pipeline_index = 0;
+
     while let Some(child) = process_spawn_results.pop_front() {
         let wait_result = if !stopped_children.is_empty() {
             child.poll().await?
@@ -552,9 +567,20 @@ async fn wait_for_pipeline_processes_and_update_status(
             child.wait().await?
         };
 
+        let ran_in_current_shell =
+            pipeline_stage_runs_in_current_shell(shell, pipeline_len, current_pipeline_index);
+        current_pipeline_index += 1;
+
         match wait_result {
             ExecutionWaitResult::Completed(current_result) => {
                 result = current_result;
+
+                // A command that ran in its own subshell only hands back a status; its
+                // `exit`, `return`, `break` or `continue` must not reach this shell.
+                if !ran_in_current_shell {
+                    result.next_control_flow = ExecutionControlFlow::Normal;
+                }
+
                 shell.set_last_exit_status(result.exit_code.into());
                 shell
                     .last_pipeline_statuses_mut()
